@@ -142,6 +142,13 @@ def _ask(op, name, arg, dtype):
         return op.diagonal()
     if name == "cholesky":
         return op.cholesky(upper=bool(arg))
+    if name == "root_decomposition" and arg == 3:
+        from linear_operator import settings
+
+        with settings.max_root_decomposition_size(2):
+            return op.root_decomposition("lanczos")          # positional on purpose: the memoize key must still carry the argument
+    if name == "root_decomposition" and arg == 0:
+        return op.root_decomposition()                       # bare call: the slot without arguments
     if name == "root_decomposition":
         return op.root_decomposition(method=METHOD_ARG[arg])
     if name == "root_inv_decomposition":
@@ -202,6 +209,8 @@ def _validate_cache(obj, A, dtype, toggles, skip_lanczos=False):
                     m = _check_answer("cholesky", int(upper), val, A, dtype, toggles)
             elif skip_lanczos and name in ("root_decomposition", "root_inv_decomposition", "diagonalization"):
                 m = None   # may be a Lanczos (Krylov-space) factor: judged by C06/C09
+            elif name == "root_decomposition" and ("lanczos" in args or kw.get("method") == "lanczos"):
+                m = _check_krylov("root_decomposition", val, A, dtype)      # stored under the key that names the Krylov method
             elif name == "root_decomposition":
                 m = _check_answer("root_decomposition", 0, val, A, dtype, toggles)
             elif name == "root_inv_decomposition":
@@ -255,7 +264,9 @@ def replay_history(beh, dtype=torch.float64):
                         ans = _ask(o, name, arg, dtype)
                         if name == "root_inv_decomposition_vecs":
                             lanczos_objs.add(cur)
-                        if lanczos_valued:
+                        if name == "root_decomposition" and arg == 3:
+                            m = _check_krylov(name, ans, A, dtype)
+                        elif lanczos_valued:
                             m = _check_krylov(name, ans, A, dtype) if arg == 0 else None
                         else:
                             m = _check_answer(name, arg, ans, A, dtype, toggles or (cur in lanczos_objs))
@@ -330,6 +341,8 @@ def _sig(beh, i, kind, msg):
     f = steps[i]
     step = "%s(%s)" % (f["name"], f["arg"]) if f["act"] == "query" else f["name"]
     what = core.failure_kind(dict(kind="raised" if kind == "raised" else "value", msg=msg)) if kind != "cache" else "invalid-cache-entry"
+    if kind == "answer" and msg.startswith("Lanczos "):
+        what = "krylov-relation"          # the answer was a Krylov-space (Lanczos) object, judged by the compression relation
     # (the derivation chain is cut to the most recent derivation; earlier queries / toggles are part of the message only)
     return "|".join([PROP, beh["cls"], chain[0], step, what])
 
